@@ -140,6 +140,11 @@ class Project:
                             for t in sub.targets:
                                 if isinstance(t, ast.Name):
                                     ci.attrs[t.id] = sub.value
+                                elif isinstance(t, (ast.Tuple, ast.List)) and isinstance(sub.value, (ast.Tuple, ast.List)) and len(t.elts) == len(sub.value.elts):
+                                    # a, b = [], []
+                                    for te, ve in zip(t.elts, sub.value.elts):
+                                        if isinstance(te, ast.Name):
+                                            ci.attrs[te.id] = ve
                 elif isinstance(node, ast.FunctionDef):
                     mod.functions[node.name] = FuncInfo(node, mod)
                 elif isinstance(node, ast.Assign):
